@@ -130,17 +130,18 @@ func aggregate(obs []*Obligation) []*AggOb {
 }
 
 type checkRun struct {
-	spec    *CheckSpec
-	results []*FuncResult
-	aggs    []*AggOb
-	errs    []string
-	engines map[string]*Engine
-	loadMS  int64
-	wall    time.Duration
-	trusted map[string]bool
-	unknown map[string]int
-	abstr   map[string]int
-	assumes []string
+	spec                  *CheckSpec
+	results               []*FuncResult
+	aggs                  []*AggOb
+	errs                  []string
+	engines               map[string]*Engine
+	loadMS                int64
+	wall                  time.Duration
+	trusted               map[string]bool
+	unknown               map[string]int
+	abstr                 map[string]int
+	assumes               []string
+	selfTotal, selfMissed int
 }
 
 var engineCache = map[string]*Engine{}
@@ -389,10 +390,24 @@ func cmdCheck(args []string) int {
 		os.WriteFile(path, data, 0o644)
 		fmt.Printf("VIOLATION property=%s replay=%s contract no longer applies to the code: %s no-failing-input-found\n", spec.Property, path, e)
 	}
+	selfTotal, selfMissed := 0, 0
+	if *tier == "thorough" {
+		var lines []string
+		selfTotal, selfMissed, lines = runSelftest(spec.Property, false)
+		for _, l := range lines {
+			fmt.Println("SELFTEST:", l)
+		}
+		fmt.Printf("must-fail corpus for %s: %d mutants, %d not detected\n", spec.Property, selfTotal, selfMissed)
+	}
+	cr.selfTotal, cr.selfMissed = selfTotal, selfMissed
 	writeEvidence(cr, *tier, seed, total, discharged, violations, knownSeen, time.Since(t0))
 	fmt.Printf("property %s: %d obligations, %d discharged, %d known findings, %d violations, %.1fs\n", spec.Property, total, discharged, len(knownSeen), violations, time.Since(t0).Seconds())
 	if violations > 0 {
 		return 1
+	}
+	if selfMissed > 0 {
+		fmt.Fprintln(os.Stderr, "ERROR (not a property verdict): the must-fail corpus has mutants this check does not detect")
+		return 2
 	}
 	return 0
 }
